@@ -31,6 +31,9 @@ def scenarios():
     for jobs in (None, 3):
         for git in ("none", "clean", "dirty"):
             out.append({"name": "run-%s-%s" % ("seq" if jobs is None else "j3", git), "cmd": "run", "jobs": jobs, "git": git, "prior": git == "none"})
+    # git integration switched off in a project that IS a repository (with uncommitted changes): versions carry no commit
+    out.append({"name": "run-seq-git-disabled-in-a-repository", "cmd": "run", "jobs": None, "git": "disabled-repo", "prior": False})
+    out.append({"name": "run-j3-git-disabled-in-a-repository", "cmd": "run", "jobs": 3, "git": "disabled-repo", "prior": True})
     out.append({"name": "run-j3-unrelated-children", "cmd": "run", "jobs": 3, "git": "none", "prior": False, "prefork": [[15, 0], [40, 0], [90, 0], [160, 0]]})
     out.append({"name": "run-seq-unrelated-children", "cmd": "run", "jobs": None, "git": "none", "prior": True, "prefork": [[10, 0], [60, 0], [140, 0], [250, 0]]})
     # an earlier, unrecorded (failed) execution left <name>.task.T behind and the clock yields T again
@@ -60,14 +63,14 @@ def build(scroot, scn):
         scripts[t["id"]] = {"steps": steps}
     scripts["//a:bad"]["exit"] = 7
     scripts["//a/b:killed"]["signal"] = 9
-    pr = realrun.Project(scroot, tasks, scripts, disable_git=(scn["git"] == "none"))
+    pr = realrun.Project(scroot, tasks, scripts, disable_git=(scn["git"] in ("none", "disabled-repo")))
     if scn["git"] != "none":
         open(os.path.join(pr.root, ".gitignore"), "w").write("cond-out\n")
         open(os.path.join(pr.root, "src.txt"), "w").write("0\n")
         realrun.git(pr.root, "init", "-q", "-b", "main")
         realrun.git(pr.root, "add", "-A")
         realrun.git(pr.root, "commit", "-q", "-m", "c0")
-        if scn["git"] == "dirty":
+        if scn["git"] in ("dirty", "disabled-repo"):
             open(os.path.join(pr.root, "src.txt"), "a").write("uncommitted\n")
     if scn["prior"]:
         pr.cond(["run", "//:ok1"], timeout=60, clock=[1_600_000_000])
@@ -282,7 +285,7 @@ def crash_case(scn, k, nth, pr, extra, sc):
         rows_before = pr.rows()
         head = None
         if scn["git"] != "none":
-            head = (realrun.git(pr.root, "rev-parse", "HEAD"), scn["git"] == "dirty")
+            head = (realrun.git(pr.root, "rev-parse", "HEAD"), scn["git"] == "dirty") if scn["git"] != "disabled-repo" else (None, False)
         argv = command(scn, pr, extra, sc.root)
         note = os.path.join(sc.root, "crash-note.json")
         kw = {}
